@@ -14,7 +14,7 @@ RULE = ("case = one rendered multi-block file (1-6 blocks; 1-3 header lines; '#S
         "mini-parser. non-trivial = file with >=2 blocks or a constraint or a cycle; distinct = file text")
 CASE_TIMEOUT = {"quick": 120, "thorough": 600}
 REQUIRED_OBS = {"c20.blocks_compared": 300, "c20.corruptions_judged": 300, "c20.fixture_blocks": 1}
-ASSUMPTIONS = ["graphs have >=1 source and >=1 sink (as quantified); comment lines only in headers; an edge line is repeated only verbatim (same weight); header lines do not start with '#S'",
+ASSUMPTIONS = ["graphs have >=1 source and >=1 sink (as quantified); comment lines only in headers; an edge line is repeated only verbatim (same weight); a header line is a '#S' line only if its first token is exactly '#S'",
                "non-numeric tokens used for corruption are ones Python's float()/int() reject (abc, 1.2.3, --, 1,5, 0x10, empty-ish)"]
 EXHAUSTIVE = {"quick": False, "thorough": False}
 
@@ -76,14 +76,16 @@ def make_block(rng, idx):
 def render(rng, blocks):
     lines = []
     for b in blocks:
-        hdr = [("#" + rng.choice(([] if h.startswith("S") else [""]) + [" ", "  ", "\t"]) + h) for h in b["headers"]]
+        # (a header text may follow the '#' directly - '#Strain_K12', '#SRR1234 run', '#kmersize=27' as in the repository's own files - unless
+        # its first token is exactly 'S', which would make the line a '#S' line)
+        hdr = [("#" + rng.choice(([] if h.split()[0] == "S" else ["", ""]) + [" ", "  ", "\t"]) + h) for h in b["headers"]]
         cl = [("#S" + rng.choice([" ", "  ", "\t"]) + rng.choice([" ", "  "]).join(c)) for c in b["cons"]]
         # constraint lines may be interleaved with the later header lines, the id line stays first
         rest = hdr[1:] + cl
         rng.shuffle(rest)
         # keep relative order of constraint lines (file order defines constraint order)
         ci = iter(cl)
-        rest = [next(ci) if x.startswith("#S") else x for x in rest]
+        rest = [next(ci) if x.split()[0] == "#S" else x for x in rest]
         for l in [hdr[0]] + rest:
             lines.append(rng.choice(["", " "]) + l)
             if b.get("blank_in_header") and rng.random() < 0.5 and l is not ([hdr[0]] + rest)[-1]:
@@ -148,7 +150,7 @@ def mini_parse(path):
         if l.startswith("#"):
             if state != "hdr":
                 cur = {"headers": [], "cons": [], "edges": [], "n": None}; blocks.append(cur); state = "hdr"
-            if l.startswith("#S"):
+            if l.split()[0] == "#S":
                 t = l[2:].split()
                 if len(t) >= 2:
                     cur["cons"].append(t)
@@ -266,7 +268,7 @@ def run_case(case):
         # ---- single-line corruptions
         edge_lines = [i for i, l in enumerate(lines) if l.strip() and not l.strip().startswith("#") and len(l.split()) == 3]
         count_lines = [i for i, l in enumerate(lines) if l.strip() and not l.strip().startswith("#") and len(l.split()) == 1]
-        cons_lines = [i for i, l in enumerate(lines) if l.strip().startswith("#S")]
+        cons_lines = [i for i, l in enumerate(lines) if l.strip() and l.split()[0] == "#S"]
         nonzero_block_edge_lines = edge_lines
         corr = []
         for _ in range(4):
@@ -310,7 +312,7 @@ def run_case(case):
                         corr.append(("constraint-edge-missing", i, " ".join(t[:2] + ["zz_absent_node"] + t[3:])))   # ... a middle node
             # the first header line of a block loses its '#': the text then is a line outside every block (first block) or a malformed
             # edge line of the previous block - unless it happens to look like an edge line (3 tokens), which is skipped
-            firsts = [i for i, l in enumerate(lines) if l.strip().startswith("#") and not l.strip().startswith("#S")
+            firsts = [i for i, l in enumerate(lines) if l.strip().startswith("#") and not l.split()[0] == "#S"
                       and not any(x.strip().startswith("#") for x in ([y for y in lines[:i] if y.strip()][-1:]))]
             firsts = [i for i in firsts if len(lines[i].strip()[1:].split()) != 3 and lines[i].strip()[1:].strip()]
             if firsts:
